@@ -168,8 +168,8 @@ func busy(stop *atomic.Bool, n int) *sync.WaitGroup {
 
 func runC06(h *H) {
 	g := h.g
-	cases := h.budget(24, 200)
-	reps := h.budget(6, 60)
+	cases := h.budget(24, 60)
+	reps := h.budget(6, 24)
 	procsList := []int{1, 2, 3, 4, 8, 16}
 	old := runtime.GOMAXPROCS(0)
 	defer runtime.GOMAXPROCS(old)
